@@ -13,6 +13,8 @@ Inductive case :=
                                                               is in): selects which of the two proved models the
                                                               observations are compared with *)
        (cfg : config)
+       (r : route)                                         (* PathPrefix("/") -> Proxy, or /favicon.ico -> Favicon
+                                                              (RFavicon s: s is the PRESENTED session) *)
        (m : mode)                                          (* Authenticated s: s is the session PRESENTED in the cookie *)
        (allowed : list str)                                (* UpstreamConfig.AllowedGroups *)
        (d : due)                                           (* which deadline of the presented session had passed and
@@ -23,7 +25,10 @@ Inductive case :=
                                                               (Set-Cookie opened with the proxy's key), if any *)
        (o_user o_email o_groups o_token : list str)        (* backend: r.Header[key] *)
        (o_cookie_lines : list str)                         (* backend: r.Header["Cookie"] *)
-       (o_cookies : list (str * str)).                     (* backend: r.Cookies() as (name, value) *)
+       (o_cookies : list (str * str))                      (* backend: r.Cookies() as (name, value) *)
+(* a request to a route that never calls the upstream handler (/robots.txt, /oauth2/v1/certs,
+   /oauth2/auth, /oauth2/sign_out, /oauth2/callback, /ping, /favicon.ico without a valid session) *)
+| CaseNoUpstream (client : list (str * str)) (forwarded : bool).
 
 Definition pair_eqb (x y : str * str) : bool := str_eqb (fst x) (fst y) && str_eqb (snd x) (snd y).
 Definition pairs_eqb (a b : list (str * str)) : bool := list_eqb pair_eqb a b.
@@ -35,13 +40,13 @@ Definition injected (cfg : config) (k : str) : list str :=
   match last_injected k (inject cfg) with Some v => [v] | None => [] end.
 
 (* guard of the kept-cookies clause: the client did not itself declare Cookie hop-by-hop, and the
-   operator does not overwrite Cookie by an injected header (applied on the authenticated path) *)
-Definition cookies_guard (cfg : config) (m : mode) (client : list (str * str)) : bool :=
+   operator does not overwrite Cookie by an injected header (applied by every Authenticate that ran:
+   on the authenticated path and by Favicon's own Authenticate) *)
+Definition inject_applied (r : route) (m : mode) : bool :=
+  match r, m with RProxy, SkipAuth => false | _, _ => true end.
+Definition cookies_guard (cfg : config) (r : route) (m : mode) (client : list (str * str)) : bool :=
   negb (client_conn_names client k_cookie) &&
-  match m with
-  | Authenticated _ => is_nil (injected cfg k_cookie)
-  | SkipAuth => true
-  end.
+  (negb (inject_applied r m) || is_nil (injected cfg k_cookie)).
 
 Record verdict := {
   v_fail : bool;         (* some clause fails on the observation *)
@@ -49,14 +54,14 @@ Record verdict := {
   v_known : N            (* attribution when every failing clause is explained *)
 }.
 
-Definition monitor (cfg : config) (m : mode) (client : list (str * str))
+Definition monitor (cfg : config) (r : route) (m : mode) (client : list (str * str))
            (ou oe og ot ol : list str) (oc : list (str * str)) : verdict :=
   let cn := cookie_name cfg in
   (* clause D: the session cookie is never forwarded (backend's parser and the model of it) *)
   let failD := existsb (fun nv => str_eqb (fst nv) cn) oc ||
                existsb (fun c => str_eqb (c_name c) cn) (read_cookies ol) in
   (* clause E: every other well-formed cookie arrives, same name, same value, same order *)
-  let failE := cookies_guard cfg m client && negb (pairs_eqb oc (want_cookies cn client)) in
+  let failE := cookies_guard cfg r m client && negb (pairs_eqb oc (want_cookies cn client)) in
   match m with
   | Authenticated s =>
       (* clause A: exactly the session's user / e-mail / groups *)
@@ -87,11 +92,11 @@ Definition monitor (cfg : config) (m : mode) (client : list (str * str))
          v_known := if fU || fE || fG || fT then 1 else 0 |}
   end.
 
-Definition holds cfg m client ou oe og ot ol oc : bool := negb (v_fail (monitor cfg m client ou oe og ot ol oc)).
+Definition holds cfg r m client ou oe og ot ol oc : bool := negb (v_fail (monitor cfg r m client ou oe og ot ol oc)).
 
 (* the model's prediction of the projected observables *)
-Definition predict (scrub : bool) (cfg : config) (m : mode) (client : list (str * str)) :=
-  let out := upstream scrub cfg m client in
+Definition predict (scrub : bool) (cfg : config) (r : route) (m : mode) (client : list (str * str)) :=
+  let out := upstream_r scrub cfg r m client in
   (h_get k_xfu out, h_get k_xfe out, h_get k_xfg out, h_get k_xfat out, h_get k_cookie out).
 
 Definition session_eqb (a b : session) : bool :=
@@ -102,8 +107,15 @@ Definition session_eqb (a b : session) : bool :=
    refresh / revalidation *)
 Definition model_mode (allowed : list str) (d : due) (m : mode) : mode :=
   match m with Authenticated s => Authenticated (asserted_session allowed s d) | SkipAuth => SkipAuth end.
-Definition model_saved (allowed : list str) (d : due) (m : mode) : option session :=
-  match m with Authenticated s => resaved_session allowed s d | SkipAuth => None end.
+Definition model_route (allowed : list str) (d : due) (r : route) : route :=
+  match r with RFavicon s => RFavicon (asserted_session allowed s d) | RProxy => RProxy end.
+(* Favicon's own Authenticate re-saves too, also when Proxy then takes the whitelisted branch *)
+Definition model_saved (allowed : list str) (d : due) (r : route) (m : mode) : option session :=
+  match m, r with
+  | Authenticated s, _ => resaved_session allowed s d
+  | SkipAuth, RFavicon s => resaved_session allowed s d
+  | SkipAuth, RProxy => None
+  end.
 
 (* the property's view, on observations only: the identity headers must be those of the session
    the proxy re-saved in this very response; when it re-saved nothing, of the presented session *)
@@ -115,16 +127,17 @@ Definition observed_mode (o_saved : option session) (m : mode) : mode :=
 
 Definition judge (c : case) : N :=
   match c with
-  | Case scrub cfg m allowed d client fwd o_saved ou oe og ot ol oc =>
-      let '(mu, me, mg, mt, ml) := predict scrub cfg (model_mode allowed d m) client in
+  | CaseNoUpstream _ fwd => if fwd then 3 else 0
+  | Case scrub cfg r m allowed d client fwd o_saved ou oe og ot ol oc =>
+      let '(mu, me, mg, mt, ml) := predict scrub cfg (model_route allowed d r) (model_mode allowed d m) client in
       let mismatch :=
-        negb (fwd && option_eqb session_eqb (model_saved allowed d m) o_saved && strs_eqb mu ou && strs_eqb me oe && strs_eqb mg og && strs_eqb mt ot &&
+        negb (fwd && option_eqb session_eqb (model_saved allowed d r m) o_saved && strs_eqb mu ou && strs_eqb me oe && strs_eqb mg og && strs_eqb mt ot &&
               (* cookies are compared as the (name, value) list the upstream reads, not as raw bytes:
                  a harmless change of the separator or of quoting style is not a difference *)
               pairs_eqb (map name_value (read_cookies ml)) oc &&
               (* the model of net/http's cookie parser against the backend's real parser *)
               pairs_eqb (map name_value (read_cookies ol)) oc) in
-      let v := monitor cfg (observed_mode o_saved m) client ou oe og ot ol oc in
+      let v := monitor cfg r (observed_mode o_saved m) client ou oe og ot ol oc in
       code mismatch (negb (v_fail v)) (if v_unexplained v then 0 else v_known v)
   end.
 
@@ -132,10 +145,12 @@ Definition judge (c : case) : N :=
    bits: 4 client sent an identity header, 8 client's Connection names an identity header or Cookie,
    16 a foreign cookie is present, 32 the session cookie occurs zero or several times,
    64 injected request headers configured, 128 access-token option on,
-   256 refresh due, 512 revalidation due, 768 grace fallback *)
+   256 refresh due, 512 revalidation due, 768 grace fallback, 1024 route /favicon.ico;
+   3 = a route that never reaches the upstream (trivial) *)
 Definition classify (c : case) : N :=
   match c with
-  | Case _ cfg m _ d client _ _ _ _ _ _ _ _ =>
+  | CaseNoUpstream _ _ => 3
+  | Case _ cfg r m _ d client _ _ _ _ _ _ _ _ =>
       let cn := cookie_name cfg in
       let cs := map name_value (read_cookies (h_get k_cookie (mk_headers client))) in
       let nsess := length (filter (fun nv => str_eqb (fst nv) cn) cs) in
@@ -146,5 +161,6 @@ Definition classify (c : case) : N :=
       (if Nat.eqb nsess 1 then 0 else 32) +
       (if is_nil (inject cfg) then 0 else 64) +
       (if pass_access_token cfg then 128 else 0) +
-      (match d with NotDue => 0 | RefreshDue _ _ => 256 | ValidateDue _ => 512 | GraceFallback => 768 end)
+      (match d with NotDue => 0 | RefreshDue _ _ => 256 | ValidateDue _ => 512 | GraceFallback => 768 end) +
+      (match r with RProxy => 0 | RFavicon _ => 1024 end)
   end.
